@@ -38,7 +38,7 @@ Theorem put_item_effect : forall cfg pol s p ct b im inm s' o,
           assoc (assoc_set (c_items pc) (last_name p) o) n = assoc (c_items pc) n).
 Proof.
   intros cfg pol s p ct b im inm s' o Hs H. apply do_put_cases in H.
-  destruct H as [[_ He]|[(pc & tg & objs & _ & _ & _ & _ & _ & Hr)|(pc & o' & Hpar & Htag & Hnc & Hval & Hcf & -> & Hr)]];
+  destruct H as [[_ He]|[(pc & tg & objs & _ & _ & _ & _ & _ & Hr & _)|(pc & o' & Hpar & Htag & Hnc & Hval & Hcf & -> & Hr & _)]];
     [discriminate He|discriminate Hr|].
   inversion Hr; subst o'. clear Hr. apply resolve_coll in Hpar. exists pc.
   assert (Hpne : p <> []).
@@ -62,7 +62,7 @@ Theorem put_whole_effect : forall cfg pol s p ct b im inm s' newc,
   /\ (forall q, is_prefix p q = false -> lookup s' q = lookup s q).
 Proof.
   intros cfg pol s p ct b im inm s' newc H. apply do_put_cases in H.
-  destruct H as [[_ He]|[(pc & tg & objs & _ & _ & _ & Hval & -> & Hr)|(pc & o' & _ & _ & _ & _ & _ & _ & Hr)]];
+  destruct H as [[_ He]|[(pc & tg & objs & _ & _ & _ & Hval & -> & Hr & _)|(pc & o' & _ & _ & _ & _ & _ & _ & Hr & _)]];
     [discriminate He| |discriminate Hr].
   inversion Hr; subst newc. clear Hr.
   split; [apply lookup_set_same|]. split; [reflexivity|]. split; [exists tg, objs; split; [exact Hval|reflexivity]|]. split.
